@@ -43,3 +43,108 @@ def dedup(texts):
             seen.add(t)
             out.append(t)
     return out
+
+
+ASCII_DRAW = "-~|!:+X*#oO_.,'`/\\()Vv^><="
+UNI_DRAW = "‾¯─–—┄│╎┊┆╲╱╳┼═□▏▕║∠⋀△▾▼▴▲▸◂▶►◀◄◆▪▁▂▃▄▅▆▇█⌊≠╪╫⊕○⦵●￮┌┐┘└├┤┬┴╭╮╰╯◜◝◟◞╔╗╚╝╒╓╬╦╩╠╣╞╡╤╥╖╙╜╕╛╘╢╟╧╨⤹"
+FULL = ASCII_DRAW + UNI_DRAW
+WIDE = "一二三中文字日本語かなカナ한글가나"   # East Asian Wide in every Unicode version
+LATIN = "éüñßçøåæ"
+CYRIL = "дфжяюы"
+
+
+def box(w, h, style="sharp", text=None):
+    """a closed box with interior w x h (w, h >= 0)"""
+    tl, tr, bl, br, hz, vt = {
+        "sharp": "++++-|", "round": ".,'`-|"[0] + "." + "'" + "'" + "-|",
+        "round2": ",.`'-|", "dashed": "++++~:", "dashed2": "++++-!",
+        "uni": "┌┐└┘─│", "uniround": "╭╮╰╯─│", "double": "╔╗╚╝═║",
+    }[style]
+    rows = [tl + hz * w + tr]
+    for i in range(h):
+        inner = " " * w
+        if text and i == h // 2:
+            inner = (text[:w]).ljust(w)
+        rows.append(vt + inner + vt)
+    rows.append(bl + hz * w + br)
+    return "\n".join(rows)
+
+
+def diagonal(n, ch="\\"):
+    if ch == "\\":
+        return "\n".join(" " * i + "\\" for i in range(n))
+    return "\n".join(" " * (n - 1 - i) + "/" for i in range(n))
+
+
+def hrun(n, ch="-"):
+    return ch * n
+
+
+def vrun(n, ch="|"):
+    return "\n".join(ch for _ in range(n))
+
+
+def paste(blocks, r=None):
+    """place text blocks side by side with one blank column in between"""
+    out = []
+    for b in blocks:
+        lines = b.split("\n")
+        wd = max(len(x) for x in lines) if lines else 0
+        if not out:
+            out = [x.ljust(wd) for x in lines]
+            continue
+        cur = max(len(x) for x in out)
+        h = max(len(out), len(lines))
+        out = [(out[i] if i < len(out) else "").ljust(cur) + "  " + (lines[i] if i < len(lines) else "")
+               for i in range(h)]
+    return "\n".join(x.rstrip() for x in out)
+
+
+def bundled_chunks(max_lines=40):
+    """the bundled example files cut into paragraphs (blank-line separated blocks)"""
+    out = []
+    for name, text in bundled_files():
+        text = text.split("# Legend:")[0]
+        block = []
+        for line in text.split("\n") + [""]:
+            if line.strip() == "":
+                if block:
+                    out.append("\n".join(block))
+                    block = []
+            else:
+                block.append(line)
+    return dedup([b for b in out if len(b.split("\n")) <= max_lines])
+
+
+def mixed_corpus(r, n, tags=False):
+    """legend-free inputs over the full drawing alphabet: random grids of several densities,
+    parametric shapes, paragraphs of the bundled examples"""
+    chunks = bundled_chunks()
+    out = []
+    styles = ["sharp", "round", "round2", "dashed", "dashed2", "uni", "uniround", "double"]
+    for i in range(n):
+        kind = i % 8
+        if kind == 0:
+            out.append(random_grid(r, r.randint(1, 14), r.randint(1, 8), FULL + LABELS[:6], r.choice([0.15, 0.4, 0.8])))
+        elif kind == 1:
+            out.append(random_grid(r, r.randint(1, 14), r.randint(1, 8), ASCII_DRAW, r.choice([0.3, 0.6, 0.9])))
+        elif kind == 2:
+            out.append(random_grid(r, r.randint(2, 10), r.randint(2, 6), "-|+.'`,/\\()_ ", 0.8))
+        elif kind == 3:
+            out.append(box(r.randint(0, 12), r.randint(0, 5), r.choice(styles), r.choice([None, "ab", "Hello"])))
+        elif kind == 4:
+            out.append(r.choice(chunks))
+        elif kind == 5:
+            out.append(paste([box(r.randint(1, 5), r.randint(0, 3), r.choice(styles)),
+                              diagonal(r.randint(2, 12), r.choice("/\\")),
+                              r.choice(["o-->", "<--*", "^\n|\n|", "|\nv", "*--o--O", "-->o", "#--#"])]))
+        elif kind == 6:
+            out.append(random_grid(r, r.randint(3, 12), r.randint(2, 6), "-|+<>^vV*oO#/\\ ", 0.7))
+        else:
+            w = r.randint(1, 12)
+            out.append(random_grid(r, w, r.randint(1, 5), LABELS[:8] + WIDE[:4] + LATIN[:3] + "-|+ ", 0.5))
+    return dedup(out)
+
+
+def shift_text(t, k, n):
+    return "\n" * n + "\n".join(" " * k + line for line in t.split("\n"))
